@@ -1,7 +1,7 @@
 """C08 - a case statement runs exactly the clause whose pattern matched (DESIGN.md section 3, C08)."""
 import ast, re
 from ..core import AnalysisError
-from ..srcmodel import walk_no_nested, calls_in, strip_doc
+from ..srcmodel import walk_no_nested, calls_in, strip_doc, raised_class
 from ..builders import chains_in, parse_chain
 from ..guards import find_ifs, arm_refuses
 
@@ -136,3 +136,46 @@ _run0 = run
 def run(ctx, rep, tier):
     _run0(ctx, rep, tier)
     _shared(ctx, rep, tier)
+
+
+# ---------------------------------------------------------------------------------------------------------------- C08.f
+def _bodyless_clauses(ctx, rep, tier):
+    """C08.f: the actions of a clause without a body are put on the transitions *entering* its finish states (the only place there is). That
+    runs exactly the selected clause only if (1) the decider's start state is not such a finish state (a zero-byte match has no entering
+    transition) and (2) from such a finish state no finish state of another clause can still be reached (greedy cases keep consuming).
+    Both are refused before any action is attached."""
+    model = ctx.model
+    rep.rule("C08.f", "actions of a body-less clause are attached on entry to its finish states only after refusing (1) a pattern that matches the empty string and (2) finish states "
+                      "from which a finish state of another clause is reachable over non-error transitions")
+    fn = model.func(CV)
+    attach = model.find(CV, "j.attach(*self.case_match_actions[true_backref], prepend=True)")
+    if not attach:
+        raise AnalysisError("C08.f: attach of a body-less clause's actions not found in CaseNode.convert")
+    att_line = min(n.lineno for n, _ in attach)
+    g1 = [n for n in walk_no_nested(fn) if isinstance(n, ast.If) and re.fullmatch(r"decider_dfa\.starting_state in corresponding_finish_states\[(\w+)\]", ast.unparse(n.test)) and isinstance(n.body[-1], ast.Raise)]
+    rep.check(len(g1) == 1 and g1[0].lineno < att_line and model.is_subclass(raised_class(g1[0].body[-1]) or "", "NMFUError"), "C08.f", CV, "a body-less clause whose pattern matches the empty string is refused",
+              "`case { /[ab]*/ -> { r = 1; } ... }`: the zero-byte match has no entering transition, so the clause's actions are silently dropped (neither it nor else runs)")
+    others = model.find(CV, "finish_states_of_others = set().union(*(corresponding_finish_states[j] for j in mergeable_ds if j is not i))")
+    g2 = [n for n in walk_no_nested(fn) if isinstance(n, ast.If) and re.fullmatch(r"(\w+)\.target in finish_states_of_others", ast.unparse(n.test)) and isinstance(n.body[-1], ast.Raise)]
+    ok = bool(others) and len(g2) == 1 and g2[0].lineno < att_line
+    if ok:
+        # the search is a closure: a worklist seeded with the clause's own finish states, following every transition that is not an error path
+        w = model.parents.get(model.parents.get(g2[0]))      # for trans in ...: inside while to_visit:
+        lp = model.parents.get(g2[0])
+        ok = isinstance(lp, ast.For) and isinstance(w, ast.While) and "all_transitions()" in ast.unparse(lp.iter) and \
+            model.has(CV, "to_visit = list(corresponding_finish_states[i])") and model.has(CV, "visited.add(trans.target)\nto_visit.append(trans.target)", root=lp) and \
+            any(isinstance(s, ast.If) and isinstance(s.body[-1], ast.Continue) and "error_handling" in ast.unparse(s.test) for s in lp.body)
+    rep.check(ok, "C08.f", CV, "a body-less clause whose finish states can still lead to another clause's finish state is refused (closure over non-error transitions)",
+              "`greedy case { prio 1 \"de\" -> { n = [n+1]; } /[a-z]+/ -> { r = 3; } }`: entering a finish state does not mean the clause is the one selected - the bodies of clauses that are "
+              "not selected run as their prefixes go by")
+    skip = [n for n in walk_no_nested(fn) if isinstance(n, ast.If) and "not self.case_match_actions[empty_backreference[" in ast.unparse(n.test) and isinstance(n.body[-1], ast.Continue)]
+    rep.check(len(skip) == 1 and re.fullmatch(r"original_backreference\[(\w+)\] is not None or empty_backreference\[\1\] is None or \(?not self\.case_match_actions\[empty_backreference\[\1\]\]\)?", ast.unparse(skip[0].test)) is not None,
+              "C08.f", CV, "the refusals apply to every body-less clause that has actions (others are skipped)", "the scope of the body-less clause checks changed")
+
+
+_run_f = run
+
+
+def run(ctx, rep, tier):
+    _run_f(ctx, rep, tier)
+    _bodyless_clauses(ctx, rep, tier)
